@@ -7,9 +7,12 @@ import os
 
 root = os.path.dirname(os.path.dirname(os.path.abspath(__file__)))
 checks = []
+ready = set(json.load(open(os.path.join(root, "manifest.d", "_ready.json"))))
 for f in sorted(glob.glob(os.path.join(root, "manifest.d", "C*.json"))):
     c = json.load(open(f))
     pid = c["property_id"]
+    if pid not in ready:
+        continue
     c.setdefault("quick_cmd", f"./run.sh quick {pid}")
     c.setdefault("thorough_cmd", f"./run.sh thorough {pid}")
     c.setdefault("evidence_file", f"/verif/evidence/{pid}.json")
